@@ -1,0 +1,4 @@
+// Package verifhook contains instrumentation points used by the external
+// runtime-verification harness. Without the `verif` build tag every function
+// in this package is an empty, inlinable no-op.
+package verifhook
